@@ -86,6 +86,18 @@ def _eval(ps, n):
         if l.kind == "ge" and r.kind == "const" and r.v is not None and s["op"] in (">", ">=", "!=") and \
                 (l.v > r.v or (s["op"] == ">=" and l.v >= r.v)):
             return AVal("const", 1)
+        # a value known to be non-zero compared with the constant 0 (unsigned: also ordered against it)
+        for a_, b_, na, flip in ((l, r, s.child(0), False), (r, l, s.child(1), True)):
+            if a_.kind == "nonzero" and b_.kind == "const" and b_.v == 0:
+                op = s["op"]
+                if flip:
+                    op = {"<": ">", ">": "<", "<=": ">=", ">=": "<="}.get(op, op)
+                if op == "!=":
+                    return AVal("const", 1)
+                if op == "==":
+                    return AVal("const", 0)
+                if na.strip_all_casts().get("signed") is False:
+                    return AVal("const", 1 if op in (">", ">=") else 0)
         return UNKNOWN
     if s.k == "ConditionalOperator":
         d = ps.decisions.get(s.child(0).strip().id)
@@ -223,6 +235,9 @@ def _branch(ps, cond, pol):
         a = atom.strip_all_casts()
         if a.k == "DeclRefExpr" and a["decl"]["kind"] in ("local", "param"):
             v = ps.env.get(a["decl"]["name"])
+            if v is None and a["decl"]["kind"] == "param" and a.get("tk") in ("int", "enum") and \
+                    a["decl"]["name"] not in getattr(ps, "stored_params", ()):
+                v = UNKNOWN       # a parameter that has not been assigned: its truth is learnt from this test
             if v is not None:
                 t = v.truth()
                 if t is not None and t != apol:
